@@ -1292,6 +1292,12 @@ impl StateMachine for FileStateMachine {
                     }
                 }
             }
+            // Publish the applied index while the write lock is still held: scan_prefix reads
+            // entries and revision under the read lock, so it can never pair the new data with
+            // the old revision (or the other way round).
+            if let Some(log_id) = highest_log_id {
+                self.update_last_applied(log_id);
+            }
         } // Lock released immediately - no awaits inside!
         #[cfg(feature = "verif-hooks")]
         crate::verif_exports::crash_point("sm:apply:after_memory");
